@@ -67,6 +67,12 @@ Check (C08_zoom_query_complete : forall two_pass fp o sizes autosql input f,
 Check (C08_geometry_any_mode : forall fp fp' ips size chrom es secs,
   bb_zoom_records fp ips size chrom es = Ok secs ->
   exists secs', bb_zoom_records fp' ips size chrom es = Ok secs' /\ Forall2 (Forall2 geq) secs secs').
+Check (C08_level_sections_sorted : forall fp ips size (chs : list (N * list entry)) per sds pos,
+  1 <= size -> Coq.Sorting.Sorted.StronglySorted N.lt (map fst chs) ->
+  Forall (fun c => valid_zoom_chrom U32_MAX (snd c)) chs ->
+  Forall2 (fun c recs => bb_zoom_records fp ips size (fst c) (snd c) = Ok recs) chs per ->
+  mapM (encode_zoom_section fp) (concat per) = Ok sds ->
+  RTreeBuild.sorted_starts (map sect_span (place pos sds))).
 Check (C08_zoom_query_sections : forall q s e (secs : list (list zrec)), Forall sec_ok secs ->
   flat_map (filter (zkeep q s e)) (filter (zsec_hit q s e) secs) = filter (zkeep q s e) (concat secs)).
 (* the definitions the file-level statements rest on *)
